@@ -376,7 +376,7 @@ class Contract(Contract_):
                          self.eval_clause(ex, e, post), e)
             for k, e in self.canaries.items():
                 ex.check(f"{self.short}.CANARY[{k}]",
-                         self.eval_clause(ex, e, post), e)
+                         self.eval_clause(ex, e, post), e, assume=False)
             self.check_frame(ex, inputs, old, "ensures")
         else:
             matched = None
@@ -435,7 +435,7 @@ class Contract(Contract_):
             ex.check(f"{self.short}.enter.ensures[{k}]",
                      self.eval_clause(ex, e, post), e)
         for k, e in self.canaries.items():
-            ex.check(f"{self.short}.CANARY[{k}]", self.eval_clause(ex, e, post), e)
+            ex.check(f"{self.short}.CANARY[{k}]", self.eval_clause(ex, e, post), e, assume=False)
         if cm.get("between"):
             self.exec_ghost(ex, cm["between"], post)
         mid = Obj(object, {k: snapshot(v) for k, v in inputs.vars.items()}, "mid")
